@@ -8,6 +8,7 @@ import (
 	"math/rand"
 	"os"
 	"strconv"
+	"strings"
 
 	"verif/harness/internal/abs"
 	"verif/harness/internal/gen"
@@ -79,14 +80,26 @@ func vtext(args []string) error {
 	maxBytes := fs.Int("maxbytes", 300000, "stop when this many input bytes have been recorded")
 	seed := fs.Int64("seed", 1, "seed")
 	prop := fs.String("property", "C01", "property id")
+	mode := fs.String("mode", "docs", "docs | esc (byte sweeps around escapes, raw bytes, backslash runs, length sweep) | sweep (byte sweeps around tokens)")
 	fs.Parse(args)
 
 	r := rand.New(rand.NewSource(*seed))
 	rep := run.NewReport()
 	var cases []vcase
+	if *mode == "esc" {
+		cases = escCases(r, *n, *maxBytes)
+		*n = 0
+	}
+	if *mode == "sweep" {
+		cases = sweepCases(r)
+		*n = 0
+	}
 	opts := gen.Default
 	opts.NoLF = *nd
 	total := 0
+	for _, c := range cases {
+		total += len(c.text)
+	}
 	for i := 0; i < *n && total < *maxBytes; i++ {
 		var text []byte
 		var want []abs.Value
@@ -242,4 +255,96 @@ func vtext(args []string) error {
 		rep.Sample(map[string]interface{}{"text": fmt.Sprintf("%.120q", cases[i].text), "accepted": results[i][0].ok}, 6)
 	}
 	return rep.Write(*out)
+}
+
+// escCases: inputs whose verdict and value only the TLA+ recogniser decides:
+// every byte after a backslash, in every hex position of a single escape and
+// of a surrogate pair, raw bytes and byte pairs inside strings, backslash runs
+// of every parity before the closing quote around a 64-byte seam, strings of
+// growing length with escapes at 32-byte window seams.
+func escCases(r *rand.Rand, n int, maxBytes int) []vcase {
+	var out []vcase
+	add := func(b []byte) { out = append(out, vcase{text: append([]byte{}, b...)}) }
+	for b := 0; b < 256; b++ {
+		add([]byte("[\"\\" + string([]byte{byte(b)}) + "\"]"))
+		add([]byte("{\"k\\" + string([]byte{byte(b)}) + "\":0}"))
+		for pos := 0; pos < 4; pos++ {
+			h := []byte("00e9")
+			h[pos] = byte(b)
+			add([]byte("[\"\\u" + string(h) + "\"]"))
+			add([]byte("[\"" + strings.Repeat("x", 24+pos) + "\\u" + string(h) + "z\"]")) // second-load path of the decoder
+		}
+		for pos := 0; pos < 12; pos++ {
+			p := []byte("\\ud83d\\ude00")
+			p[pos] = byte(b)
+			add([]byte("[\"" + string(p) + "\"]"))
+		}
+		add([]byte("[\"" + string([]byte{byte(b)}) + "\"]"))
+		add([]byte("[\"a" + string([]byte{byte(b)}) + "c\"]"))
+		add([]byte("{\"" + string([]byte{byte(b)}) + "\":null}"))
+	}
+	// raw two-byte sequences (sampled unless n is large)
+	step := 37
+	if n >= 5000 {
+		step = 1
+	}
+	for v := r.Intn(step); v < 65536; v += step {
+		add([]byte{'[', '"', byte(v >> 8), byte(v), '"', ']'})
+	}
+	// lone / swapped / truncated surrogates next to valid pairs (outcome left open by the spec where ill-formed)
+	for _, s := range []string{"\\ud800", "\\udc00", "\\ud800x", "\\ud800\\n", "\\udbff\\udfff", "\\ud800\\ud800", "\\udc00\\ud800", "\\ud83d\\ude0", "\\ud83d\\u", "\\ud83d\\"} {
+		add([]byte("[\"" + s + "\"]"))
+		add([]byte("[\"ab" + s + "cd\"]"))
+	}
+	// backslash runs of length k ending e bytes around the 64-byte seam, then the closing quote
+	for k := 1; k <= 12; k++ {
+		for e := 52; e <= 76; e++ {
+			fill := e - 2 - k
+			if fill < 0 {
+				continue
+			}
+			add([]byte("[\"" + strings.Repeat("f", fill) + strings.Repeat("\\", k) + "\"]"))
+			add([]byte("[\"" + strings.Repeat("f", fill) + strings.Repeat("\\", k) + "\",\"t\"]"))
+		}
+	}
+	// length sweep with escapes at window seams
+	maxLen := 300
+	if n >= 5000 {
+		maxLen = 4096
+	}
+	escs := []string{"\\n", "\\u00e9", "\\ud83d\\ude00", "\\\\", "\\\"", "é", "😀"}
+	for L := 0; L <= maxLen; L++ {
+		if L > 300 && L < 4000 && L%13 != 0 && n < 50000 {
+			continue
+		}
+		var body []byte
+		for len(body) < L {
+			if (len(body)%32 >= 27 || len(body)%32 == 0) && r.Intn(2) == 0 {
+				body = append(body, escs[r.Intn(len(escs))]...)
+			} else {
+				body = append(body, "abcdefghijklmnopqrstuvwxyz"[len(body)%26])
+			}
+		}
+		add([]byte("[\"" + string(body) + "\"]"))
+		if L%7 == 0 {
+			add([]byte("{\"" + string(body) + "\":\"" + string(body) + "\"}"))
+		}
+	}
+	return out
+}
+
+// sweepCases: every byte value at the positions where a follow-set, a number
+// table or white-space handling decides (C01 byte-table sweeps).
+func sweepCases(r *rand.Rand) []vcase {
+	var out []vcase
+	add := func(s string) { out = append(out, vcase{text: []byte(s)}) }
+	for b := 0; b < 256; b++ {
+		c := string([]byte{byte(b)})
+		for _, t := range []string{"[true%s]", "[false%s]", "[null%s]", "{\"a\":null%s}", "{\"a\":true%s,\"b\":1}", "[1%s]", "[-1%s]", "[1.5%s]", "[1e5%s]", "[0%s]",
+			"[%s]", "[%s1]", "[1,%s2]", "[1%s,2]", "{%s\"a\":1}", "{\"a\"%s:1}", "{\"a\":%s1}", "{\"a\":1%s}", "%s[1]", "[1]%s", "[[]%s]", "[{}%s]", "[\"s\"%s]",
+			"[1%s2]", "[-%s]", "[1.%s]", "[1e%s]", "[1e+%s]", "[t%sue]", "[nul%s]", "[fals%s]", "[tru%s]"} {
+			add(strings.Replace(t, "%s", c, 1))
+		}
+	}
+	return out
 }
